@@ -86,7 +86,12 @@ func drawWord(t *rapid.T, label string, extra ...string) string {
 func drawPair(t *rapid.T, service, product, region string, byteIDs bool) (p, q, class string) {
 	p = drawWord(t, "p", service, product)
 	sp := "_" + service + "_" + product
-	switch rapid.IntRange(0, 12).Draw(t, "class") {
+	switch rapid.IntRange(0, 14).Draw(t, "class") {
+	case 13, 14:
+		// ids that differ only in something a formatting function would interpret (ids are data, never formats)
+		v := rapid.SampledFrom([][2]string{{"%s", "%v"}, {"%v", "%s"}, {"%[1]s", "%[1]v"}, {"%%", "%"}, {"%d", "%x"}, {"%s%s", "%s%v"}}).Draw(t, "verbs")
+		tail := rapid.SampledFrom([]string{"", "b", "_" + region}).Draw(t, "verbTail")
+		p, q, class = p+v[0]+tail, p+v[1]+tail, "differ-in-format-verb"
 	case 0:
 		q, class = p+sp, "P+_service_product"
 	case 1:
